@@ -214,7 +214,48 @@ class C13(Prop):
                   "not proved. encoding/json, base64-in-Go vs the modelled base64, proto (un)marshal are oracles whose answers the Go side "
                   "re-validates on each evaluation. The debug-data comparison of error details is outside the model.")
     _crashed = ()
+    _gen_counts = {}
+    _generated = False
     technique = "Coq proof (induction over messages / trailer lists / JSON trees; byte-class facts by 256-sweeps) + differential model-vs-Go correspondence with library oracles"
+
+    # feedback classes that a `flags_*` theorem names (or that the iff characterisations cover) and that can occur
+    CLASSES = ["eos-nocolon", "eos-name", "eos-upper", "eos-value", "eos-obsfold", "eos-blank-end", "eos-blank", "eos-lf", "eos-nocrlf",
+               "st-multi", "st-missing", "st-parse", "st-range", "msg-multi", "msg-hex", "msg-raw", "msg-incomplete", "msg-with-ok",
+               "det-multi", "det-b64", "det-padded", "det-proto", "det-code", "det-okdetails", "det-msg", "bin-b64", "bin-padded",
+               "http-trailers", "ce-syntax", "ce-type", "ce-null", "ce-dup", "ce-key", "cd-type", "cd-null", "cd-key",
+               "es-syntax", "es-type", "es-null", "es-dup", "es-key", "ce-code-kind", "ce-code-name", "ce-message-kind", "ce-details-kind",
+               "ce-nocode", "cd-type-kind", "cd-type-name", "cd-value-kind", "cd-value-b64", "cd-notype", "cd-novalue",
+               "es-error-kind", "es-meta-kind", "es-meta-name", "es-meta-val-kind", "es-meta-elem-kind", "es-meta-value"]
+    MIN_PER_CLASS = 50
+
+    def _count(self, key, n=1):
+        self._gen_counts[key] = self._gen_counts.get(key, 0) + n
+
+    def extra(self, ctx):
+        """per-class occurrence counts into the evidence: how many evaluated cases the MODEL answers with each feedback class
+        (the model's answers equal the implementation's unless a disagreement is reported), plus the generator's own
+        structural counters (single malformations by depth ...)"""
+        import re
+        counts = {c: 0 for c in self.CLASSES}
+        pats = {c: re.compile("#" + c.encode().hex() + "(?=[ )])") for c in self.CLASSES}
+        silent_rt = 0
+        try:
+            with open(os.path.join(ctx.work, "main.model.out")) as f:
+                for line in f:
+                    if "2d" not in line:          # every class tag contains '-'
+                        continue
+                    for c, pat in pats.items():
+                        if pat.search(line):
+                            counts[c] += 1
+        except OSError:
+            return []
+        ctx.notes["class_counts"] = counts
+        ctx.notes["generator_counts"] = dict(sorted(self._gen_counts.items()))
+        short = sorted(c for c, n in counts.items() if n < self.MIN_PER_CLASS)
+        ctx.notes["classes_below_%d" % self.MIN_PER_CLASS] = short
+        if short and getattr(self, "_generated", False):
+            print("C13: WARNING: feedback classes seen fewer than %d times: %s" % (self.MIN_PER_CLASS, ", ".join("%s=%d" % (c, counts[c]) for c in short)))
+        return []
 
     # ------------------------------------------------------------------
     def nontrivial(self, case, res):
@@ -342,6 +383,8 @@ class C13(Prop):
         quick = tier == "quick"
         cases = []
         self._crashed = []
+        self._gen_counts = {}
+        self._generated = True
 
         # A. byte classes
         for c in range(256):
@@ -349,7 +392,7 @@ class C13(Prop):
         # B. percent encoding
         for c in range(256):
             cases.append(["c13.percent", bytes([c])])
-        for _ in range(300 if quick else 5000):
+        for _ in range(2500 if quick else 20000):
             cases.append(["c13.percent", self._message(rng)])
 
         # C. structured errors through the real encoders
@@ -359,10 +402,10 @@ class C13(Prop):
             errors.append([code, b"msg %d" % code, self._details(rng, 1), self._wf_trailers(rng)])
         for c in range(256):   # every single byte as a one-byte message, with a detail so that details-bin agreement is checked
             errors.append([rng.randint(1, 16), bytes([c]), self._details(rng, 1), []])
-        for _ in range(250 if quick else 4000):
+        for _ in range(3000 if quick else 12000):
             errors.append([rng.randint(1, 16), self._message(rng), self._details(rng), self._wf_trailers(rng)])
         n_wf = len(errors)
-        for _ in range(120 if quick else 1500):
+        for _ in range(600 if quick else 3000):
             code = rng.choice([0, 0, 17, 99, 4294967295, rng.randint(1, 16)])
             errors.append([code, self._message(rng), self._details(rng), self._bad_trailers(rng) if rng.random() < 0.7 else self._wf_trailers(rng)])
         rendered = self._oracle([["c13.o.render"] + e for e in errors], "render")
@@ -418,9 +461,9 @@ class C13(Prop):
             cerr_in.append([code, b"msg %d" % code, self._details(rng, 1)])
             ces_in.append([1, code, b"", [], [], 1])
             ces_in.append([1, code, b"msg %d" % code, self._details(rng, 2), meta_trailers(), rng.choice([0, 1])])
-        for _ in range(250 if quick else 4000):
+        for _ in range(1000 if quick else 6000):
             cerr_in.append([rng.choice([rng.randint(1, 16)] * 9 + [0, 17, 99]), utf8_message(), self._details(rng)])
-        for _ in range(600 if quick else 8000):
+        for _ in range(5000 if quick else 20000):
             he = int(rng.random() < 0.75)
             ces_in.append([he, rng.choice([rng.randint(1, 16)] * 9 + [0, 17, 99]) if he else 0, utf8_message() if he else b"",
                            self._details(rng) if he else [], meta_trailers(), rng.choice([0, 1, 1, 2])])
@@ -437,10 +480,10 @@ class C13(Prop):
 
         # D. every single malformation of small real renderings
         eos_texts = []
-        small = sorted(set(b for b in blocks if len(b) <= (90 if quick else 140)), key=lambda b: (len(b), b))
+        small = sorted(set(b for b in blocks if len(b) <= (110 if quick else 160)), key=lambda b: (len(b), b))
         rng.shuffle(small)
         inserts = [0x0A, 0x0D, 0x20, 0x09, 0x3A, 0x25, 0x41, 0x61, 0x00, 0x7F, 0x80, 0x3D, 0x30]
-        for b in small[:(10 if quick else 60)]:
+        for b in small[:(40 if quick else 150)]:
             for pos in range(len(b) + 1):
                 if pos < len(b):
                     eos_texts.append(b[:pos] + b[pos + 1:])
@@ -452,6 +495,12 @@ class C13(Prop):
                 if b[pos:pos + 2] == b"\r\n":
                     eos_texts.append(b[:pos] + b"\n" + b[pos + 2:])
                     eos_texts.append(b[:pos + 2] + b"\r\n" + b[pos + 2:])
+            starts = [0] + [pos + 2 for pos in range(len(b)) if b[pos:pos + 2] == b"\r\n"]
+            for pos in starts:      # line-level: every malformed line of the catalogue inserted at every line boundary
+                for ins in (b"\r\n", b"\n", b" folded\r\n", b"\tf\r\n", b" \r\n", b"nocolon\r\n", b": v\r\n", b":\r\n", b"Up-Per: v\r\n",
+                            b"bad name: v\r\n", b"k: v\x00\r\n", b"k: v\n", b"k : v\r\n", b"k\xc3\xa9: v\r\n", b"k: \x7f\r\n"):
+                    eos_texts.append(b[:pos] + ins + b[pos:])
+                    self._count("eos-line-insert@" + ("first" if pos == 0 else "last" if pos == len(b) else "inside"))
             eos_texts.append(b + b"\r\n")
             eos_texts.append(b[:-2])
             eos_texts.append(b[:-1])
@@ -464,7 +513,7 @@ class C13(Prop):
         values = [b"0", b"5", b"16", b"17", b"-1", b"abc", b"", b"a b", b" pad ", b"a%20b", b"%", b"%4", b"%zz", b"caf\xc3\xa9", b"x\x00y",
                   b"x\x7fy", b"tab\there", det_ok, det_ok + b"==", b"!!!!", b"m", b"a:b:c", b"v\r"]
         ends = [b"\r\n", b"\r\n", b"\r\n", b"\n", b"\r", b"", b"\r\r\n", b"\n\r\n"]
-        for _ in range(1500 if quick else 30000):
+        for _ in range(30000 if quick else 120000):
             parts = []
             for _ in range(rng.randint(0, 5)):
                 r = rng.random()
@@ -475,7 +524,7 @@ class C13(Prop):
                 else:
                     parts.append(rng.choice(names) + rng.choice(seps) + rng.choice(values) + rng.choice(ends))
             eos_texts.append(b"".join(parts))
-        for _ in range(200 if quick else 5000):
+        for _ in range(3000 if quick else 20000):
             eos_texts.append(bytes(rng.choice(b"ab:: \t\r\n\n\r\n%A-") for _ in range(rng.randint(0, 16))))
         # a line with an empty field name (":..."), first and not first, after blank lines, with and without CR
         for first in (b"", b"grpc-status: 0\r\n", b"grpc-status: 0\n", b"\r\n", b"a\r\n", b"grpc-status: 3\r\ngrpc-message: m\r\n", b"\r\n\r\nx: y\r\n", b" x\r\n"):
@@ -512,7 +561,7 @@ class C13(Prop):
             return bytes(rng.choice(b"ABCabc012+/=-_ \r\n") for _ in range(rng.randint(0, 9)))
 
         status_cases = []
-        for _ in range(2000 if quick else 40000):
+        for _ in range(30000 if quick else 120000):
             hs = []
             r = rng.random()
             if r < 0.9:
@@ -526,7 +575,7 @@ class C13(Prop):
             rng.shuffle(hs)
             status_cases.append(hs)
         # agreeing trios built from one status
-        for _ in range(300 if quick else 5000):
+        for _ in range(2000 if quick else 10000):
             c = rng.randint(0, 16)
             m = self._message(rng)
             ds = [(b"type.googleapis.com/" + self._type_name(rng), b"v")] * rng.choice([0, 1, 2])
@@ -537,7 +586,7 @@ class C13(Prop):
                                  [b"Grpc-Status-Details-Bin", [b64raw(status_proto(c, mm, ds))]]])
 
         # G. checkBinaryMetadata
-        for _ in range(500 if quick else 10000):
+        for _ in range(6000 if quick else 30000):
             hs = []
             for _ in range(rng.randint(0, 4)):
                 name = rng.choice([b"x-bin", b"X-BIN", b"x-Bin", b"x", b"bin", b"-bin", b"grpc-status-details-bin", b"Grpc-Status-Details-Bin", b"a-binx", b"y-bin"])
@@ -598,7 +647,7 @@ class C13(Prop):
 
         for code in range(1, 17):
             json_cases.append(("c13.cerr", jrender(wf_error(code)), 1))
-        for _ in range(300 if quick else 5000):
+        for _ in range(1500 if quick else 8000):
             json_cases.append(("c13.cerr", jrender(wf_error(), rng), 1))
             json_cases.append(("c13.ces", jrender(wf_end_stream(), rng), 1))
 
@@ -648,7 +697,7 @@ class C13(Prop):
                                    b"code_5", b"CANCELED", b"a b", b"!!!!", b"QQ==", b"QQ", b"Q", b"QUJD\n", b"a/b.C"])
             return rng.choice(junk)
 
-        for _ in range(900 if quick else 20000):
+        for _ in range(12000 if quick else 50000):
             t = wf_error()
             for _ in range(rng.choice([1, 1, 1, 2])):
                 t = mutate(t)
@@ -657,6 +706,87 @@ class C13(Prop):
             for _ in range(rng.choice([1, 1, 1, 2])):
                 t = mutate(t)
             json_cases.append(("c13.ces", jrender(t, rng), 0))
+        # every single malformation of the catalogue at every node of some conformant trees (depth recorded)
+        junk_small = [None, True, ("n", b"1"), ("n", b"1e999"), b"s", [], [None], obj(), obj((b"a", ("n", b"1")), (b"a", ("n", b"2")))]
+        str_bad = [b"", b"a b", b"QQ==", b"Q", b".a", b"a.", b"1a", b"code_5", b"x\x00", b"x\x7f", b"UNKNOWN"]
+
+        def singles(t, depth):
+            if isinstance(t, tuple) and t[0] == "o":
+                ms = list(t[1])
+                for i, (k, v) in enumerate(ms):
+                    for nv, d, w in singles(v, depth + 1):
+                        yield ("o", ms[:i] + [(k, nv)] + ms[i + 1:]), d, w
+                    yield ("o", ms[:i] + ms[i + 1:]), depth, "delete"
+                    yield ("o", ms[:i + 1] + [(k, v)] + ms[i + 1:]), depth, "dup"
+                    yield ("o", ms + [(k, None)]), depth, "dup"
+                    yield ("o", [(k, b"first")] + ms), depth, "dup"
+                    for nk in keyvar.get(k, [k.upper()])[:2]:
+                        yield ("o", ms[:i] + [(nk, v)] + ms[i + 1:]), depth, "fold-rename"
+                        yield ("o", ms + [(nk, v)]), depth, "fold-extra"
+                        yield ("o", [(nk, rng.choice(junk_small))] + ms), depth, "fold-extra"
+                    for j in junk_small:
+                        yield ("o", ms[:i] + [(k, j)] + ms[i + 1:]), depth, "retype"
+                yield ("o", ms + [(b"extra", b"x")]), depth, "unknown"
+                yield ("o", [(b"", None)] + ms), depth, "unknown"
+            elif isinstance(t, list):
+                for i, x in enumerate(t):
+                    for nx, d, w in singles(x, depth + 1):
+                        yield t[:i] + [nx] + t[i + 1:], d, w
+                for j in junk_small:
+                    yield t + [j], depth, "elem"
+                    yield [j] + t, depth, "elem"
+            elif isinstance(t, (bytes, bytearray)):
+                for sb in str_bad:
+                    yield sb, depth, "string"
+                yield t + b"=", depth, "string"
+                yield t + b"\x00", depth, "string"
+
+        bases = []
+        for _ in range(12 if quick else 40):
+            bases.append(("c13.cerr", obj((b"code", CODE_NAMES[rng.randrange(16)].encode()), (b"message", b"m"),
+                                          (b"details", [hdr_detail(True), plain_detail()]))))
+            bases.append(("c13.ces", obj((b"error", obj((b"code", CODE_NAMES[rng.randrange(16)].encode()), (b"message", b"m"),
+                                                        (b"details", [hdr_detail(True)]))),
+                                         (b"metadata", obj((b"x-a", [b"v", b"w"]), (self._wf_name(rng), [self._wf_value(rng).replace(b"\x80", b"a").replace(b"\xc3", b"b").replace(b"\xa9", b"c").replace(b"\xff", b"d")]))))))
+        for kind, base in bases:
+            json_cases.append((kind, jrender(base), 1))
+            for t, d, w in singles(base, 0):
+                json_cases.append((kind, jrender(t), 0))
+                self._count("json-single-%s@depth%d" % (w, d))
+                self._count("json-single@depth%d" % d)
+
+        # null where a typed value is expected passes encoding/json's typed Unmarshal, so only the per-key check can
+        # object ("... is a <nil> instead of ..."): the *-kind classes; and a top-level null
+        def with_null(t, path):
+            if not path:
+                return None
+            if isinstance(t, tuple) and t[0] == "o":
+                ms = list(t[1])
+                idx = [i for i, (k, _) in enumerate(ms) if k == path[0]]
+                if not idx:
+                    ms.append((path[0], with_null(obj() if len(path) > 1 else b"", path[1:])))
+                else:
+                    ms[idx[0]] = (path[0], with_null(ms[idx[0]][1], path[1:]))
+                return ("o", ms)
+            if isinstance(t, list):
+                if not t:
+                    t = [obj((b"type", b"a.B"), (b"value", b"QQ"))]
+                i = rng.randrange(len(t))
+                return t[:i] + [with_null(t[i], path)] + t[i + 1:]
+            return with_null(obj(), path)
+
+        n_null = 90 if quick else 300
+        for _ in range(n_null):
+            ws1, ws2 = rng.choice([b"", b" ", b"\n", b"\t", b"\r\n", b"  "]), rng.choice([b"", b" ", b"\n", b"\t ", b"\r\n"])
+            json_cases.append(("c13.cerr", ws1 + b"null" + ws2, 0))
+            json_cases.append(("c13.ces", ws1 + b"null" + ws2, 0))
+            for path in ((b"code",), (b"message",), (b"details",), (b"details", b"type"), (b"details", b"value")):
+                json_cases.append(("c13.cerr", jrender(with_null(wf_error(), path), rng), 0))
+                json_cases.append(("c13.ces", jrender(obj((b"error", with_null(wf_error(), path))), rng), 0))
+            for path in ((b"error",), (b"metadata",), (b"metadata", rng.choice([b"k", b"x-a"])), (b"error", b"details", b"type")):
+                json_cases.append(("c13.ces", jrender(with_null(wf_end_stream(), path), rng), 0))
+            json_cases.append(("c13.ces", jrender(obj((b"metadata", obj((b"k", [b"v", None, b"w"][:rng.randint(2, 3)])))), rng), 0))
+
         for t in junk:
             json_cases.append(("c13.cerr", jrender(t), 0))
             json_cases.append(("c13.ces", jrender(t), 0))
@@ -709,16 +839,16 @@ class C13(Prop):
             for pos in range(len(b)):
                 json_cases.append((kind, b[:pos] + b[pos + 1:], 0))
                 json_cases.append((kind, b[:pos] + bytes([rng.choice(b'",:{}[]\\ aZ0\x00\xff')]) + b[pos:], 0))
-        for _ in range(300 if quick else 6000):
-            json_cases.append((rng.choice(["c13.cerr", "c13.ces"]), bytes(rng.choice(b'{}[]",:\\ codemsga01nulltrue.e-') for _ in range(rng.randint(0, 14))), 0))
+        for _ in range(8000 if quick else 40000):
+            json_cases.append((rng.choice(["c13.cerr", "c13.ces"]), bytes(rng.choice(b'{}[]",:\\ codemsga01nulltrue.e-') for _ in range(rng.randint(0, 40))), 0))
 
         # I. examineWireDetails
         ctypes = [b"application/json", b"application/json; charset=utf-8", b"application/proto", b"application/connect+json", b"application/connect+proto",
                   b"application/grpc-web", b"application/grpc-web+proto", b"application/grpc-web-text", b"application/grpc", b"application/grpc+proto",
                   b"application/grpcfoo", b"application/grpc+", b"text/plain", b""]
         wire_raw = []
-        some_json = [c[1] for c in json_cases[:400]]
-        for _ in range(700 if quick else 12000):
+        some_json = [c[1] for c in json_cases[:2000]]
+        for _ in range(8000 if quick else 30000):
             ct = rng.choice(ctypes)
             st = rng.choice([200, 200, 400, 500])
             body = rng.choice(some_json) if rng.random() < 0.7 else b""
@@ -795,10 +925,10 @@ class C13(Prop):
 
         # J. robustness: arbitrary bytes through every examiner
         pool = eos_texts + [c[1] for c in json_cases]
-        for _ in range(1200 if quick else 20000):
+        for _ in range(20000 if quick else 80000):
             r = rng.random()
             if r < 0.4:
-                b = bytes(rng.randrange(256) for _ in range(rng.randint(0, 40)))
+                b = bytes(rng.randrange(256) for _ in range(rng.randint(0, 200)))
             elif r < 0.8:
                 b = bytearray(rng.choice(pool))
                 for _ in range(rng.randint(1, 4)):
